@@ -286,3 +286,39 @@ harness! {
         vcover!(due_a && storage_bucket(a) < cleanup_bucket(now), "overdue by more than a second (late tick / interval > 1s)");
     }
 }
+
+// ------------------------------------------------------------------------------------------------
+// Stand-in for `ExpirationMap::try_cleanup` (Kani only), used by the store/cache-level sweep
+// harnesses: hands out an ARBITRARY single listing (key, conflict) chosen by the harness - proper
+// or stale, due or not - or nothing. That over-approximates whatever the expiry index can contain;
+// what the real `try_cleanup` hands out is decided by `c05_em_cleanup_due`.
+// ------------------------------------------------------------------------------------------------
+#[cfg(kani)]
+pub(crate) mod emrec {
+    use super::*;
+    pub static mut HAND_OUT: bool = false;
+    pub static mut KEY: u64 = 0;
+    pub static mut CONFLICT: u64 = 0;
+    pub static mut CALLS: usize = 0;
+    pub fn set(hand_out: bool, key: u64, conflict: u64) {
+        unsafe {
+            HAND_OUT = hand_out;
+            KEY = key;
+            CONFLICT = conflict;
+            CALLS = 0;
+        }
+    }
+    pub fn try_cleanup<S: BuildHasher + Clone + 'static>(em: &ExpirationMap<S>, _now: Time) -> Result<Option<HashMap<u64, u64, S>>, CacheError> {
+        unsafe {
+            CALLS += 1;
+            // always a map (an emptied bucket is a legal hand-out too): returning None on one path
+            // would merge the map's slots with an undefined value and CBMC could no longer see
+            // that slots 1 and 2 are empty, which multiplies the iterator unrolling
+            let mut m = HashMap::with_hasher(em.hasher());
+            if HAND_OUT {
+                m.insert(KEY, CONFLICT);
+            }
+            Ok(Some(m))
+        }
+    }
+}
